@@ -198,6 +198,20 @@ class ObjMixin:
                 c = tops[0] if len(tops) == 1 else self.decide(f"class:{o.tag}", sorted(tops, key=lambda c: c.name))
                 o.cls = c
                 assigns = _self_assignments(c, name)
+        if assigns and not o.concrete and not self._single_unconditional(assigns):
+            # conditionally (or repeatedly) assigned attribute of a summary object: unknown
+            init = None
+            ca = o.cls.find_class_attr(name)
+            if ca is not None and ca[1][0] is not None:
+                init = self.class_attr_value(ca[0], name, ca[1][0])
+            else:
+                try:
+                    init = self.summary_attr(o, name, assigns)
+                except Exception:
+                    init = None
+                if not isinstance(init, (PList, PSet, PDict)):
+                    init = None
+            return self.volatile_view(o, name, init)
         if assigns:
             init_val = self.summary_attr(o, name, assigns)
             if volatile or (not o.concrete and isinstance(init_val, (PList, PSet, PDict))):
@@ -225,6 +239,13 @@ class ObjMixin:
         self.events.append(("attr-error", f"{o.cls.name}.{name} is never defined", self.cur_site))
         u = Unknown(f"{o.tag}.{name}")
         return u
+
+    @staticmethod
+    def _single_unconditional(assigns):
+        if len(assigns) != 1:
+            return False
+        c, fi, st = assigns[0]
+        return fi.name == "__init__" and any(st is x for x in fi.node.body)
 
     def annotated_value(self, o, name, owner, ann, volatile):
         classes, elems = _ann_classes(self.prog, owner.module, ann)
